@@ -187,6 +187,23 @@ theorem dispatch_only_registered_kinds (ms : List Move) (inp : PollIn) (o : Outc
     rw [(pollStep_tables (reach ms) inp).2.2.2.1] at hr1
     exact Or.inr ⟨i, fl, reg, h3, hr1, hr2, h4⟩
 
+/-- one buffered event per poll, oldest first, without asking the kernel again (safety half of
+    ready_eventually_dispatched: a buffered event is delivered after at most `position` further polls unless
+    set()/remove() pruned it) -/
+theorem poll_delivers_buffered_first (s : St) (inp : PollIn) (e : Id × Flags) (r : List (Id × Flags))
+    (h : s.selected = e :: r) : pollStep s inp = ({ s with selected := r }, some e) := by
+  unfold pollStep; rw [h]
+
+/-- what the kernel reports for registered sockets is buffered in the reported order and its first event
+    is delivered at once (unless the event descriptor interrupts the round) -/
+theorem poll_buffers_reported (s : St) (inp : PollIn) (e : Id × Flags) (r : List (Id × Flags))
+    (h : s.selected = []) (hi : (inp.eventfd && s.eventfd != 0) = false)
+    (ha : appendSelected s inp.events [] = e :: r) :
+    (pollStep s inp).2 = some e ∧ (pollStep s inp).1.selected = r := by
+  unfold pollStep
+  rw [h]
+  simp [ha, hi]
+
 /-- the registration of every client of every reachable state is (read unless suspended) + (write iff backlog) -/
 theorem client_interest (ms : List Move) (i : Id) (c : ClientS) (reg : Flags)
     (hc : (reach ms).clients i = some c) (hl : lookup (reach ms).sockets i = some reg) :
